@@ -68,7 +68,7 @@ def run(tier):
     three = next((p for p in allc if len(p[1]) == 6), None)
     if three:
         for nl, c in ((300, 2), (40000, 2), (70000, 2), (70000, 5), (33000, 7)) if full else ((300, 2), (70000, 2), (33000, 7)):
-            add(c, rnd.choice([0, 1]), [three] * nl, "random", internal=True)
+            add(c, rnd.choice([0, 1]), [three] * nl, "random", internal=True, use_file=(nl >= 33000))  # the long ones through the FILE variant (> 64 KiB of text)
     # chunk sizes from the far ends of the int range, and powers of two above 2^16 with start offsets around them
     for c in (-2, -2147483648, 2147483647, 131072, 1048576):
         for k in range(4):
